@@ -836,6 +836,10 @@ func run(sc vh.Scenario, dir string, rec *vh.Rec) {
 		d.startStopStart(rec)
 		rec.DoneAndExit(9)
 	}
+	if mode, _ := sc.Opt["mode"].(string); mode == "stopatpopped" {
+		d.stopAtPopped(rec)
+		rec.DoneAndExit(9)
+	}
 	if mode, _ := sc.Opt["mode"].(string); mode == "stopstop" {
 		d.stopStop(rec)
 		rec.DoneAndExit(9)
@@ -1236,6 +1240,74 @@ func (d *drv) stopStop(rec *vh.Rec) {
 	case <-time.After(callTimeout):
 		ev["res"] = "hang"
 	}
+	rec.Emit(ev)
+}
+
+// stopAtPopped (opt realdb): the keeper is stopped while the plotter has popped a request and has not yet begun to
+// plot it.  Records whether the stop still returns and whether the plot was run to its end regardless (the monitor's
+// StopPlot finds no plot to stop yet; nothing stops the one that starts afterwards).
+func (d *drv) stopAtPopped(rec *vh.Rec) {
+	sk := d.sk
+	ev := vh.Event{"step": 1, "a": "StopAtPopped"}
+	rec.Begin(ev)
+	call(func() error { return sk.ActOnWorkSpace(d.sids["w1"], engine.Plot) })
+	sk.Start()
+	reached := false
+	for k := 0; k < 8 && !reached; k++ {
+		p, ok := d.waitPark()
+		if !ok {
+			break
+		}
+		if p.point == "popped" {
+			reached = true
+			break
+		}
+		d.g.grant <- struct{}{}
+	}
+	if !reached {
+		ev["res"] = "no-pop"
+		rec.Emit(ev)
+		return
+	}
+	stopped := make(chan string, 1)
+	t0 := time.Now()
+	go func() { r, _ := call(func() error { return sk.Stop() }); stopped <- r }()
+	for k := 0; k < 2000 && !capacity.VerifQuitClosed(sk); k++ {
+		time.Sleep(time.Millisecond)
+	}
+	time.Sleep(20 * time.Millisecond) // the monitor (started after the pop) has seen the quit signal by now, if it exists
+	d.g.mu.Lock()
+	d.g.free = true
+	d.g.mu.Unlock()
+	windowHeld := false
+	go func() {
+		// the plot, if one starts, is let run freely
+		select {
+		case db := <-d.reg.inplot:
+			windowHeld = true
+			db.mu.Lock()
+			rel := db.release
+			db.mu.Unlock()
+			if rel != nil {
+				rel()
+			}
+		case <-time.After(callTimeout):
+		}
+	}()
+	d.g.grant <- struct{}{}
+	select {
+	case r := <-stopped:
+		ev["stop"] = r
+	case <-time.After(callTimeout + 2*time.Second):
+		ev["stop"] = "hang"
+	}
+	ev["stop_ms"] = int(time.Since(t0) / time.Millisecond)
+	ev["plot_started_after_stop"] = windowHeld
+	if db := d.dbs["w1"]; db != nil && db.inner != nil {
+		_, plotted, prog := db.inner.Progress()
+		ev["plotted_to_the_end"], ev["progress"] = plotted, prog
+	}
+	ev["res"] = "ok"
 	rec.Emit(ev)
 }
 
